@@ -2,6 +2,6 @@
    Only ExtrOcamlBasic is used (bool, option, unit, list, prod, sumbool, sumor map to
    OCaml's own types); N, Z, positive and nat stay Coq datatypes; no Extract Constant. *)
 Require Import ExtrOcamlBasic.
-From AtreeModel Require Import Proto StorageTrace ArrayTrace HealthTrace CodecTrace MapTrace DecodeTrace BatchTrace MapTreeTrace NestedTrace CodecInlTrace IterMapTrace MapBatchTrace AliasTrace MapExtTrace CallbackTrace.
+From AtreeModel Require Import Proto StorageTrace ArrayTrace HealthTrace CodecTrace MapTrace DecodeTrace BatchTrace MapTreeTrace NestedTrace CodecInlTrace IterMapTrace MapBatchTrace AliasTrace MapExtTrace CallbackTrace NestedSelfSetTrace.
 Extraction Language OCaml.
-Extraction "model.ml" chk_storage chk_array chk_health chk_codec chk_mapelems chk_decode chk_batch chk_maptree chk_nested chk_codecinl chk_itermap chk_mapbatch chk_alias chk_mapext chk_callback.
+Extraction "model.ml" chk_storage chk_array chk_health chk_codec chk_mapelems chk_decode chk_batch chk_maptree chk_nested chk_codecinl chk_itermap chk_mapbatch chk_alias chk_mapext chk_callback chk_nested2.
